@@ -7,7 +7,7 @@ RULE = ('one evaluation = the key of one valid call under one information-preser
         'the binding CPython produced; a violation is one key shared by two different bindings; distinct_nontrivial = distinct keys seen')
 SCOPE = {
     'quick': 'callables as for C09 (quick); calls with 0..3 positionals and every subset of <=2 keywords, each also with the first '
-             'argument replaced by 1, 1.0, True, "1", (1,), b"1"; the 48 configurations without builtin hash, restricted to those the '
+             'argument replaced by 1, 1.0, True, "1", (1,), b"1"; the 48 configurations without builtin hash plus flat stringmap(encoding=latin_1) typed and untyped, restricted to those the '
              'statement calls information-preserving for the signature (non-flat; flat with sentinel or without *args)',
     'thorough': 'callables as for C09 (thorough); calls with 0..4 positionals and <=3 keywords with the same value variants',
 }
